@@ -194,7 +194,7 @@ def stages(tier, sd, J, lat):
             rl = [(s, e, first.setdefault(q, size) if q else size, al, q) for (s, e, size, al, q) in rl]
             J.direct(out, "linear", rl, drift=True, tag="random-small")
     # the full iteration budget with an unreachable memory limit (99999 iterations)
-    for i in range(2 if quick else 12):
+    for i in range(1 if quick else 12):
         r = alloc_driver.random_ranges(rng, rng.randrange(3, 6), 4, "lattice", ALIGNS)
         J.direct(out, "hillclimb", r, None, 0, tag="full-budget")
     # --- random large sets
@@ -214,7 +214,9 @@ def stages(tier, sd, J, lat):
         p, lim = HC_PARAMS[rng.randrange(3)]
         J.direct(out, "hillclimb", r, p, hc_limit(lim, r), tag="random-medium")
     for i in range(8 * scale):
-        r = alloc_driver.random_ranges(rng, rng.randrange(150, 301), rng.randrange(50, 300), "big", ALIGNS)
+        # the cost of one run grows with the square of the number of ranges (>= 500 iterations): 100-200 in quick
+        r = alloc_driver.random_ranges(rng, rng.randrange(100, 201) if quick else rng.randrange(150, 301),
+                                       rng.randrange(50, 300), "big", ALIGNS)
         p, lim = [(1, INF), (10, INF)][i % 2]
         J.direct(out, "hillclimb", r, p, lim, tag="random-large")
     # --- tensor_allocation.allocate end to end
@@ -275,7 +277,9 @@ def mc_plan(tier):
     quick = tier == "quick"
     plan = [  # (module, cfg, workers, must-fire actions, timeout)
         ("Alloc", "Alloc_MC.cfg", 4, ("Alloc.Extend", "Alloc.Allocate"), 600),
-        ("AllocGreedy", "AllocGreedy_Refine.cfg", 4, ("AllocGreedy.Start", "AllocGreedy.AllocStep"), 900),
+        # the refinement PROPERTY is evaluated per transition and is slow on a busy machine: 2 ranges in quick
+        ("AllocGreedy", "AllocGreedy_Refine2.cfg" if quick else "AllocGreedy_Refine.cfg", 4,
+         ("AllocGreedy.Start", "AllocGreedy.AllocStep"), 900),
         ("AllocLinear", "AllocLinear_MC.cfg", 4, ("AllocLinear.Start", "AllocLinear.AllocStep"), 900),
     ]
     if quick:
